@@ -212,3 +212,26 @@ ENSURES(children_released_and_storage_recycled_once, g_udr == O(g_udr) + 1 && g_
 ENSURES(address_cleared_then_handle_deactivated, verif_exc != 0 || (g_setaddrs == O(g_setaddrs) + 1 && g_setaddr_node == p && g_setaddr_addr == 0 && g_udr_seq < g_setaddr0_seq && g_deacts == O(g_deacts) + 1 && g_deact_node == p && g_setaddr0_seq < g_deact_seq))
 ENSURES(node_count_decremented, verif_exc != 0 || self->stats.active_nodes == O(self->stats.active_nodes) - 1)
 ;
+
+/* ---- in-place rewrite of a stored node (variable reordering; anchor of C02 / C13) ------------------------------------
+ * The node keeps its handle; it leaves the unique table under its OLD hash before its storage goes away, and re-enters under the
+ * hash of its NEW content after the new storage exists. */
+node_handle forest__modifyReducedNodeInPlace(struct forest *self, struct unpacked_node *un, node_handle p)
+__CPROVER_requires(__CPROVER_is_fresh(self, sizeof(*self)))
+__CPROVER_requires(__CPROVER_is_fresh(self->unique, 1) && __CPROVER_is_fresh(self->nodeMan, 1))
+__CPROVER_requires(__CPROVER_is_fresh(un, sizeof(*un)) && p >= 1 && un->level != 0)
+__CPROVER_requires(verif_exc == 0 && g_seq < 1000000 && g_removes < 1000000 && g_udr < 1000000 && g_setaddrs < 1000000 && g_hashes < 1000000 && g_adds < 1000000 && g_recycles < 1000000
+                   && g_setlevels < 1000000 && g_makenodes < 1000000)
+__CPROVER_assigns(verif_exc, g_seq, g_removes, g_remove_seq, g_remove_hash, g_remove_node, g_udr, g_udr_seq, g_udr_addr, g_setaddrs, g_setaddr_node, g_setaddr_addr, g_setaddr0_seq,
+                  g_hashes, g_hash_seq, un->the_hash, g_has_hash, g_setlevels, g_setlevel_node, g_setlevel_level, g_makenodes, g_makenode_node, g_makenode_flags,
+                  g_adds, g_add_seq, g_add_hash, g_add_node, g_recycles)
+ENSURES(leaves_the_unique_table_under_its_old_hash, g_removes == O(g_removes) + 1 && g_remove_node == p && g_remove_hash == g_node_hash)
+ENSURES(old_storage_released_after_removal, g_udr == O(g_udr) + 1 && g_udr_addr == g_old_addr && g_remove_seq < g_udr_seq)
+ENSURES(same_handle_is_returned, verif_exc != 0 || __CPROVER_return_value == p)
+ENSURES(level_taken_from_the_new_content, verif_exc != 0 || (g_setlevels == O(g_setlevels) + 1 && g_setlevel_node == p && g_setlevel_level == un->level))
+ENSURES(new_content_stored_under_the_same_handle, verif_exc != 0 || (g_makenodes == O(g_makenodes) + 1 && g_makenode_node == p && g_setaddrs == O(g_setaddrs) + 1 && g_setaddr_node == p && g_setaddr_addr == g_new_addr))
+ENSURES(reenters_the_unique_table_under_the_hash_of_the_new_content, verif_exc != 0 || (g_hashes == O(g_hashes) + 1 && g_adds == O(g_adds) + 1 && g_add_node == p && g_add_hash == g_computed_hash
+        && g_udr_seq < g_hash_seq && g_hash_seq < g_add_seq))
+ENSURES(scratch_node_recycled, verif_exc != 0 || g_recycles == O(g_recycles) + 1)
+ENSURES(only_out_of_memory_is_raised, verif_exc == 0 || verif_exc == ERR_INSUFFICIENT_MEMORY)
+;
